@@ -11,7 +11,8 @@ from checks import termination_common as tc
 
 NSIM = {"quick": (60, 400), "thorough": (1500, 12000)}
 WEAK = {"Drain_WeakLater.cfg": "Inv_C10_Guards", "Drain_WeakTiers.cfg": "Inv_C10_Guards", "Drain_WeakGrace.cfg": "Inv_C10_Guards",
-        "Drain_WeakDnd.cfg": "Inv_C10_Guards", "Drain_WeakThreshold.cfg": "Inv_C10_Guards", "Drain_WeakDrop.cfg": "Inv_C10_Guards"}
+        "Drain_WeakDnd.cfg": "Inv_C10_Guards", "Drain_WeakThreshold.cfg": "Inv_C10_Guards", "Drain_WeakDrop.cfg": "Inv_C10_Guards",
+        "Drain_WeakNil.cfg": "Inv_C10_Guards", "Drain_WeakSplit.cfg": "Inv_C10_Guards"}
 
 
 def behaviours(run):
